@@ -165,6 +165,24 @@ func (self Node) float64() (float64, error) {
 	}
 }
 
+// Float32 returns the float32 value contained by a FLOAT node
+func (self Node) Float32() (float32, error) {
+	if self.IsError() {
+		return 0, self
+	}
+	return self.float32()
+}
+
+func (self Node) float32() (float32, error) {
+	switch self.t {
+	case proto.FLOAT:
+		v, _ := protowire.BinaryDecoder{}.DecodeFloat32(rt.BytesFrom(self.v, int(self.l), int(self.l)))
+		return v, nil
+	default:
+		return 0, errNode(meta.ErrUnsupportedType, "Node.float32: the Node type is not FLOAT", nil)
+	}
+}
+
 // String returns the string value contianed by a STRING node
 func (self Node) String() (string, error) {
 	if self.IsError() {
@@ -348,6 +366,8 @@ func (self Value) Interface(opts *Options) (interface{}, error) {
 		return self.uint()
 	case proto.DOUBLE:
 		return self.float64()
+	case proto.FLOAT:
+		return self.float32()
 	case proto.BYTE:
 		return self.binary()
 	case proto.STRING:
